@@ -129,3 +129,32 @@ def facade_selects_active_iff_some_pump_or_blower_on(np: int, nb: int, a: bool, 
     ensures("exactly-one-switch", len(Modes.calls) == 1)
     ensures("active-iff-some-pump-or-blower-is-on", Modes.calls[0] == want)
     cover("all-off-selects-idle", both(np == 2, not a, not b))
+
+
+# ----------------------------------------- "some pump or blower is on": the real devices on the real state items
+from geckolib.automation.pump import GeckoPump
+from geckolib.automation.blower import GeckoBlower
+from geckolib.automation.sensors import GeckoSensor
+from geckolib.const import GeckoConstants
+
+
+@harness(prop="C17", cases="c17_device_state_shapes", target="geckolib.automation.pump:GeckoPump.is_on",
+         name="device_counts_as_on_unless_its_state_item_reads_off")
+def device_counts_as_on_unless_its_state_item_reads_off(shape, pos: int, block: bytes, blower: bool):
+    """every shape a pump / waterfall / blower state item has in the shipped tables (two-speed, on/off, flag), any block:
+    the device is on exactly when its state item does not read OFF (a flag item: when it is set)"""
+    from contracts.c02_accessor import build, spec_length, RecStruct
+    requires(len(block) == 1024)
+    requires(both(0 <= pos, pos + spec_length(shape) <= 1024))
+    acc = build(shape, RecStruct(block), pos)
+    sensor = new(GeckoSensor)
+    sensor._accessor = acc
+    dev = new(GeckoBlower) if blower else new(GeckoPump)
+    dev._state_sensor = sensor
+    dev._accessor = acc
+    state = acc.value
+    if shape["cls"] == "GeckoBoolStructAccessor":
+        ensures("flag-item:on-iff-set", dev.is_on == state)
+    else:
+        ensures("on-iff-the-state-is-not-OFF", dev.is_on == (state != "OFF"))
+    cover("reached-end", True)
